@@ -135,16 +135,37 @@ func (st *c19State) cycles() []string {
 }
 
 func watchCells(st *c19State, p *value, name string, depth int) {
-	s, ok := (*p).(structure)
-	if !ok {
-		st.watch[p] = name
+	if p == nil {
 		return
 	}
-	for k := range s {
-		st.watch[&s[k]] = fmt.Sprintf("%s.field%d", name, k)
-		if _, nested := s[k].(structure); nested && depth < 3 {
-			watchCells(st, &s[k], fmt.Sprintf("%s.field%d", name, k), depth+1)
+	if _, seen := st.watch[p]; seen {
+		return
+	}
+	st.watch[p] = name
+	watchValue(st, *p, name, depth)
+}
+
+// watchValue registers every cell reachable from v (struct fields, array and slice elements, pointer
+// targets, interface payloads) as shared; maps (the store's tables have their own mutex discipline),
+// natives and functions are not entered.
+func watchValue(st *c19State, v value, name string, depth int) {
+	switch x := v.(type) {
+	case structure:
+		for k := range x {
+			watchCells(st, &x[k], fmt.Sprintf("%s.field%d", name, k), depth+1)
 		}
+	case array:
+		for k := range x {
+			watchCells(st, &x[k], fmt.Sprintf("%s[%d]", name, k), depth+1)
+		}
+	case []value:
+		for k := range x {
+			watchCells(st, &x[k], fmt.Sprintf("%s[%d]", name, k), depth+1)
+		}
+	case *value:
+		watchCells(st, x, name+".*", depth+1)
+	case iface:
+		watchValue(st, x.v, name, depth)
 	}
 }
 
@@ -237,6 +258,7 @@ func init() {
 		if p, ok := a[0].(iface).v.(*value); ok && p != nil {
 			watchCells(st, p, cstr(a[1], "name"), 0)
 		}
+		fr.i.m.note(fmt.Sprintf("shared cells watched: %d", len(st.watch)))
 		return nil
 	}
 	zzAPI["SharedWriteViolations"] = func(fr *frame, a []value) value {
